@@ -4,6 +4,7 @@
    Part C: closed cycles return the table sizes. *)
 From JV Require Import Base.Bytes Base.Dec Base.Utf8 Json.Json Model.Wire Model.ClientMgr Proofs.DecFacts
                        Proofs.ClientMgrInv Proofs.ClientMgrC03.
+From JV Require Import Proofs.ClientDispatchFacts.
 From Coq Require Import Permutation.
 Local Open Scope N_scope.
 Arguments N.add : simpl never.
@@ -425,7 +426,7 @@ Lemma step_resp_call s raw r w : quiet s -> classify_frame raw = FSingle (IResp 
 Proof.
   intros QT CF L.
   eapply (step_back_after s raw _ _ (set_requests (m s) (aremove id_eqb (rs_id r) (requests (m s)))) (subkind s) QT).
-  - rewrite CF. cbn [handle_back handle_elem_single]. unfold single_response. rewrite L. reflexivity.
+  - rewrite CF. rewrite ?handle_back_now; cbn [handle_back_ref handle_elem_single_ref]. unfold single_response. rewrite L. reflexivity.
   - reflexivity.
   - proj_tac.
 Qed.
@@ -443,7 +444,7 @@ Proof.
             (set_subs (set_requests (set_requests (m s) (aremove id_eqb (rs_id r) (requests (m s))))
                                     ((rs_id r, KSub u w um) :: aremove id_eqb (rs_id r) (requests (m s))))
                       ((sid, rs_id r) :: subs (m s))) ((w, inl sid) :: subkind s) QT).
-  - rewrite CF. cbn [handle_back handle_elem_single]. unfold single_response. rewrite L, PL, PS.
+  - rewrite CF. rewrite ?handle_back_now; cbn [handle_back_ref handle_elem_single_ref]. unfold single_response. rewrite L, PL, PS.
     cbn [subs set_requests requests]. rewrite NI, AL. reflexivity.
   - reflexivity.
   - proj_tac.
@@ -457,7 +458,7 @@ Lemma step_resp_sub_err s raw r u w um e : quiet s -> classify_frame raw = FSing
 Proof.
   intros QT CF L PL M'.
   eapply (step_back_after s raw _ _ M' (subkind s) QT).
-  - rewrite CF. cbn [handle_back handle_elem_single]. unfold single_response. rewrite L, PL. reflexivity.
+  - rewrite CF. rewrite ?handle_back_now; cbn [handle_back_ref handle_elem_single_ref]. unfold single_response. rewrite L, PL. reflexivity.
   - reflexivity.
   - proj_tac.
 Qed.
@@ -471,7 +472,7 @@ Lemma step_resp_unsubp s raw r sub : quiet s -> classify_frame raw = FSingle (IR
 Proof.
   intros QT CF L r1 r2.
   eapply (step_back_after s raw _ _ (set_requests (m s) r2) (subkind s) QT).
-  - rewrite CF. cbn [handle_back handle_elem_single]. unfold single_response. rewrite L. reflexivity.
+  - rewrite CF. rewrite ?handle_back_now; cbn [handle_back_ref handle_elem_single_ref]. unfold single_response. rewrite L. reflexivity.
   - reflexivity.
   - proj_tac.
 Qed.
@@ -485,7 +486,7 @@ Proof.
   intros QT CF L1 L2 M'.
   assert (H : exists s1, handle_back s (classify_frame raw) = ROk s1 [] /\ m s1 = M' /\
                 Proj (upd_subkind (upd_next s (next_id s)) (subkind s)) s1).
-  { rewrite CF. cbn [handle_back handle_elem_single]. unfold sub_close. rewrite L1, L2. eexists. split; [reflexivity|].
+  { rewrite CF. rewrite ?handle_back_now; cbn [handle_back_ref handle_elem_single_ref]. unfold sub_close. rewrite L1, L2. eexists. split; [reflexivity|].
     split.
     - destruct (drop_sink_same (upd_m s M') ch). auto.
     - eapply Proj_trans; [|apply Proj_drop_sink]. proj_tac. }
@@ -607,7 +608,7 @@ Proof.
   intros QT CF E A L H U LK.
   assert (LH : lo < hi) by (apply A in L; lia).
   eapply (step_back_after s raw _ _ (set_batches (m s) (aremove range_eqb (lo, hi) (batches (m s)))) (subkind s) QT).
-  - rewrite CF. cbn [handle_back]. rewrite (array_loop_resps s rs ns [] None false E).
+  - rewrite CF. rewrite ?handle_back_now; cbn [handle_back_ref]. rewrite (array_loop_resps s rs ns [] None false E).
     rewrite (span_cover ns lo hi A L H). apply N.eqb_neq in U. rewrite U.
     replace (hi - 1 + 1) with hi by lia. unfold batch_response. rewrite LK. reflexivity.
   - reflexivity.
@@ -914,7 +915,8 @@ Qed.
 
 Lemma elem_single_batches s x : batches (m (rres_st (handle_elem_single s x))) = batches (m s).
 Proof.
-  destruct x as [r|me sid p|me sid p|me p|]; cbn [handle_elem_single rres_st]; auto.
+  rewrite handle_elem_single_now.
+  destruct x as [r|me sid p|me sid p|me p|]; cbn [handle_elem_single_ref rres_st]; auto.
   - apply single_response_batches.
   - unfold sub_deliver. destruct (alookup _ _ _); auto. destruct (req_lookup _ _) as [[w|u w um|u ch um|j]|]; auto.
     destruct (chan_of s ch); auto. destruct (chan_send c p) as [c' res].
@@ -953,8 +955,9 @@ Proof.
         match goal with |- context [enqueue_tagged ?a ?b ?c] => destruct (enqueue_tagged_sameq a b c) as [E] end; rewrite E; reflexivity.
       + destruct (close_msg_of s sh); auto. destruct (chan_of s sh); auto. cbn [fst].
         match goal with |- context [try_enqueue ?a ?b] => destruct (try_enqueue_sameq a b) as [E] end; rewrite E; reflexivity.
-      + destruct (dying s); auto. destruct (classify_frame raw) as [x0|ms|] eqn:CF; [|discriminate|]; cbn [handle_back].
-        * pose proof (elem_single_batches s x0) as E. destruct (handle_elem_single s x0); cbn [rres_st fst] in *; auto.
+      + destruct (dying s); auto. destruct (classify_frame raw) as [x0|ms|] eqn:CF; [|discriminate|]; rewrite ?handle_back_now; cbn [handle_back_ref].
+        * pose proof (elem_single_batches s x0) as E. rewrite handle_elem_single_now in E.
+          destruct (handle_elem_single_ref s x0); cbn [rres_st fst] in *; auto.
         * reflexivity. }
   unfold step in *. destruct (apply s e) as [[s1 o1] r]. cbn [fst] in *.
   pose proof (settle_keep s1) as K2. destruct (settle s1) as [s2 o2]. cbn [fst] in *.
